@@ -173,15 +173,21 @@ def check(chk):
         f = repo.func(rel, qn)
         chk.analysed(f)
         cfg = f.cfg()
-        first = [n for n in cfg.nodes_where(lambda n: n.kind == "stmt" and not (
-            isinstance(n.ast, ast.Expr) and isinstance(n.ast.value, ast.Constant)))][:1]
-        ok = bool(first) and isinstance(first[0].ast, ast.AugAssign) and src(first[0].ast.target) == buf and isinstance(first[0].ast.op, ast.Add) \
-            and src(first[0].ast.value) == "msg"
-        chk.ob("PAIR-15", "%s appends the new bytes to the persistent buffer first" % qn, ok, f.where(), construct=f.ident,
+        apps = [n for n in cfg.nodes_where(lambda n: n.kind == "stmt" and isinstance(n.ast, ast.AugAssign) and src(n.ast.target) == buf
+                                           and isinstance(n.ast.op, ast.Add) and src(n.ast.value) == "msg")]
+        reads = [n for n in cfg.nodes if n.kind in ("stmt", "test") and n not in apps and buf in n.text(400)]
+        ok = len(apps) == 1 and all(cfg.dominates(apps[0].id, r.id) for r in reads)
+        chk.ob("PAIR-15", "%s appends the new bytes to the persistent buffer before anything looks at the buffer" % qn, ok, f.where(), construct=f.ident,
                text="append first")
         finds = [n for n in cfg.nodes_where(lambda n: n.kind == "stmt" and isinstance(n.ast, ast.Assign) and isinstance(n.ast.value, ast.Call)
                                             and call_attr(n.ast.value) == "find" and src(n.ast.value.func.value) == buf)]
         chk.ob("PAIR-15", "%s searches the frame delimiter in the buffer" % qn, bool(finds), f.where(), construct=f.ident, text="find delimiter")
+        for fn_ in finds:
+            c_ = fn_.ast.value
+            whole = len(c_.args) == 1 or (len(c_.args) == 2 and const_value(c_.args[1]) == 0)
+            chk.ob("PAIR-15", "%s searches the whole buffer for the delimiter (frames carried over from earlier reads included)" % qn, whole and not c_.keywords,
+                   f.where(c_), detail="search limited by %s: a frame that was already in the buffer is never found again" % [src(a) for a in c_.args[1:]],
+                   construct=f.ident, text="delimiter search offset " + short(c_, 50))
         if not finds:
             continue
         pos = src(finds[0].ast.targets[0])
@@ -214,9 +220,12 @@ def check(chk):
     f = repo.func(OS_, "OPPSerialCommunicator._parse_msg")
     chk.analysed(f)
     cfg = f.cfg()
-    first = [n for n in cfg.nodes_where(lambda n: n.kind == "stmt")][:2]
-    ok = len(first) == 2 and isinstance(first[0].ast, ast.AugAssign) and src(first[0].ast.target) == "self.part_msg" and \
-        src(first[1].ast).replace(" ", "") == "strlen=len(self.part_msg)"
+    apps = [n for n in cfg.nodes_where(lambda n: n.kind == "stmt" and isinstance(n.ast, ast.AugAssign) and src(n.ast.target) == "self.part_msg"
+                                       and isinstance(n.ast.op, ast.Add) and src(n.ast.value) == "msg")]
+    meas = [n for n in cfg.nodes_where(lambda n: n.kind == "stmt" and src(n.ast).replace(" ", "") == "strlen=len(self.part_msg)")]
+    reads = [n for n in cfg.nodes if n.kind in ("stmt", "test") and n not in apps and "self.part_msg" in n.text(400)]
+    ok = len(apps) == 1 and len(meas) == 1 and cfg.dominates(apps[0].id, meas[0].id) and all(cfg.dominates(apps[0].id, r.id) for r in reads) and \
+        all(cfg.dominates(meas[0].id, r.id) for r in reads if r is not meas[0])
     chk.ob("PAIR-15", "OPP parser appends new bytes first and measures the whole buffer", ok, f.where(), construct=f.ident, text="append first")
     frames = {}
     n_disp = 0
@@ -596,6 +605,8 @@ def battery():
         M("PKONE buffer never cut", PK, "            self.received_msg = self.received_msg[pos + 1:]\n", "", "PROGRESS-1"),
         M("PKONE frames decoded but dropped", PK, "            if msg.decode() not in self.ignored_messages:\n                self.platform.process_received_message(msg.decode())", "            if msg.decode() not in self.ignored_messages:\n                pass", "PAIR-15"),
         M("OPP matrix frames never dispatched", OS_, "                        self.platform.process_received_message(self.chain_serial, self.part_msg[:11])\n", "", "PAIR-15"),
+        M("FAST delimiter search skips the carried-over bytes", FB, "            pos = self.received_msg.find(b'\\r')", "            pos = self.received_msg.find(b'\\r', len(msg))", "PAIR-15"),
+        M("twin: unrelated statement before the append", FB, "        self.received_msg += msg\n", "        n_new = len(msg)\n        self.received_msg += msg\n", None),
     ]
 
 
